@@ -15,7 +15,7 @@ MUST_REACH = ["absorbed-with-pending-uncancel", "native-timeout-fired", "scope-a
 def units(tier):
     quick = tier == "quick"
     us = []
-    B = 100 if quick else 1500
+    B = 240 if quick else 1500
 
     def add(name, **p):
         p.setdefault("T", 1)
@@ -27,9 +27,10 @@ def units(tier):
     add("D=1 cancel=0 child", D=1, cancel=0, in_child=True)
     add("D=2 cancel=1 stubborn=1", D=2, cancel=1, stubborn=1, shields=(False, False), J=1)
     add("D=2 cancel=0 stubborn=1", D=2, cancel=0, stubborn=1, shields=(False, False), J=1)
-    add("D=2 cancel=1 cancel2=0", D=2, cancel=1, cancel2=0, J=1, post0=True)
+    add("D=2 cancel=1 cancel2=0", D=2, cancel=1, cancel2=0, J=1, post0=True, shields=(False, False))
+    add("D=2 cancel=1 cancel2=0 sym shields, no native probe", D=2, cancel=1, cancel2=0, J=0, post0=True, native_after=False)
     add("D=2 cancel=1 cancel2=0 stubborn=1", D=2, cancel=1, cancel2=0, stubborn=1, shields=(False, False), J=1, post0=True)
-    add("D=3 cancel=2 cancel2=0", D=3, cancel=2, cancel2=0, shields=(False, False, False), J=1, post0=True)
+    add("D=3 cancel=2 cancel2=0", D=3, cancel=2, cancel2=0, shields=(False, False, False), J=0 if quick else 1, post0=True)
     add("D=3 cancel=2 cancel2=0 stubborn=2", D=3, cancel=2, cancel2=0, stubborn=2, shields=(False, False, False), J=1, post0=True, native_after=False)
     add("D=2 deadline=1 cancel=0", D=2, deadlines=(1,), cancel=0, shields=(False, False), J=1, native_after=False)
     add("D=2 pre_cancel=1", D=2, pre_cancel=1, native_after=False)
